@@ -110,6 +110,10 @@ lay!(c14_q_points_swapped, Point, 256, [PT, PT], [1, 0], [0, 0, 0]);
 lay!(c14_q_polylines_swapped_with_gaps, Polyline, 416, [PL2, PL3], [1, 0], [1, 4, 1]);
 // H: tier=quick; unwind=34; sym=payload; layout=3 Points stored as [2,0,1], no filler; asserts=as above
 lay!(c14_q_points3_rotated, Point, 288, [PT, PT, PT], [2, 0, 1], [0, 0, 0, 0]);
+// H: tier=quick; unwind=34; sym=payload; layout=3 Points stored as [1,0,2], no filler (the third index entry's offset equals header + sizes read so far, although the source is elsewhere after two seeks); asserts=as above
+lay!(c14_q_points3_102, Point, 288, [PT, PT, PT], [1, 0, 2], [0, 0, 0, 0]);
+// H: tier=quick; unwind=34; sym=payload; layout=3 Points stored as [2,1,0], no filler (the second index entry's offset equals header + size of one record, although the source is at the end of the file); asserts=as above
+lay!(c14_q_points3_reversed, Point, 288, [PT, PT, PT], [2, 1, 0], [0, 0, 0, 0]);
 // H: tier=quick; unwind=34; sym=payload; layout=3 Points in order, no filler (the layout the writer produces); asserts=as above
 lay!(c14_q_points3_plain, Point, 288, [PT, PT, PT], [0, 1, 2], [0, 0, 0, 0]);
 // H: tier=thorough; unwind=34; sym=payload of 3 Points, filler bytes; layout=physical order [0, 1, 2], filler words [1, 0, 0, 0]; asserts=as c14_q_points_gap_between
